@@ -305,8 +305,13 @@ func (r *Run) Finish() int {
 		ev["violations"] = 1
 	}
 	b, _ := json.MarshalIndent(ev, "", " ")
-	os.MkdirAll(filepath.Join(Root, "evidence"), 0o755)
-	os.WriteFile(filepath.Join(Root, "evidence", r.Property+".json"), b, 0o644)
+	// runs against a mutated copy of the library (bin/seedtest, bin/controltest) keep their evidence apart
+	evDir := filepath.Join(Root, "evidence")
+	if d := os.Getenv("VERIF_EVIDENCE"); d != "" {
+		evDir = d
+	}
+	os.MkdirAll(evDir, 0o755)
+	os.WriteFile(filepath.Join(evDir, r.Property+".json"), b, 0o644)
 	if status == 0 {
 		fmt.Printf("OK property=%s tier=%s obligations=%d/%d evaluations=%d distinct=%d\n", r.Property, r.Tier, discharged, obligations, r.Evaluations, len(r.Distinct))
 	}
